@@ -4,9 +4,11 @@
 //! (run A) and inside an order-preserving interleaving with the other connections on one analyzer
 //! (run B); the per-frame canonical results of each connection must be identical.
 
-use crate::rt::{hex, Ctx, PropSpec};
+use crate::pool::{PoolCfg, PoolKind};
+use crate::rt::{hex, Ctx, PropSpec, Rng};
 use crate::scenario::{self, Conn, Kind, Mix, Runner, Which};
 use serde_json::json;
+use std::collections::BTreeMap;
 
 const KINDS: [Kind; 10] = [
     Kind::TcpHandshake,
@@ -32,7 +34,142 @@ pub fn isolated(which: Which, with_db: bool, c: &Conn) -> Result<Vec<Vec<String>
     Ok(out)
 }
 
+/// The same question put to the worker pools (the parallel mode of the TCP, HTTP and TLS
+/// analyzers): the interleaved trace is dispatched free-running, so that frames of several
+/// connections wait together in a worker's queue, and after logical drain the results attributed
+/// to each connection must be those of the connection analysed alone.
+fn pool_stage(ctx: &mut Ctx, s: u64, r: &mut Rng, conns: &[Conn], with_db: bool) {
+    let started = std::time::Instant::now();
+    for kind in [PoolKind::Http, PoolKind::Tls, PoolKind::Tcp] {
+        let which = super::c10::which_of(kind);
+        // reference: each connection alone on a fresh sequential analyzer, clock frozen as in the pool run
+        let mut expected: BTreeMap<String, Vec<String>> = BTreeMap::new();
+        let mut failed = false;
+        for c in conns {
+            let mut rn = Runner::new(which, 64, with_db);
+            for (_, f) in &c.frames {
+                match rn.feed(scenario::T0, f) {
+                    Ok(lines) => {
+                        for l in lines {
+                            expected.entry(crate::canon::conn_key_of(&l).unwrap_or_default()).or_default().push(l);
+                        }
+                    }
+                    Err(_) => {
+                        failed = true; // reported by the sequential stage
+                    }
+                }
+            }
+        }
+        if failed {
+            continue;
+        }
+        let mix = *r.pick(&[Mix::RoundRobin, Mix::Riffle, Mix::HostileFirst, Mix::Bursts]);
+        let trace = scenario::interleave(r, conns, mix);
+        let cfg = PoolCfg { workers: 1 + r.usize(3), queue: trace.len() + 8, batch: *r.pick(&[1usize, 2, 4]), timeout_ms: *r.pick(&[1u64, 10]), max_conn: 64, with_db };
+        huginn_net_tcp::verif_hooks::clock::set_ms(scenario::T0);
+        let via_analyzer = r.chance(1, 2);
+        let par = match super::c10::parallel_with(kind, &cfg, &trace, false, r.next_u64(), *r.pick(&[0u64, 2, 5]), via_analyzer) {
+            Ok(p) => p,
+            Err(e) => {
+                ctx.judge(false, &[], "worker pool could not be created", || json!({"error": e}));
+                continue;
+            }
+        };
+        if !par.all_queued || !par.drained {
+            ctx.inconclusive("pool stage: a frame was not queued or the pool did not drain within 30 s");
+            continue;
+        }
+        if started.elapsed().as_secs() >= 10 {
+            ctx.inconclusive("pool stage exceeded 10 s of wall time (TTL caches could have expired)");
+            continue;
+        }
+        let mut got: BTreeMap<String, Vec<String>> = BTreeMap::new();
+        for l in par.results.iter().flatten() {
+            got.entry(crate::canon::conn_key_of(l).unwrap_or_default()).or_default().push(l.clone());
+        }
+        if kind == PoolKind::Tcp {
+            // the TCP pool shards by sending host: the two directions of a connection are
+            // analysed by different workers, their relative order is not defined
+            for v in expected.values_mut().chain(got.values_mut()) {
+                v.sort();
+            }
+        }
+        let same = got == expected;
+        ctx.judge(same, &[], "a connection's results in the worker pool differ from its results when analysed alone", || {
+            let key = expected.keys().chain(got.keys()).find(|k| expected.get(*k) != got.get(*k)).cloned().unwrap_or_default();
+            json!({
+                "scenario": s, "pool": format!("{kind:?}"), "config": format!("{cfg:?}"), "built_by_analyzer": via_analyzer, "mix": format!("{mix:?}"),
+                "kinds_in_scenario": conns.iter().map(|c| format!("{:?}", c.kind)).collect::<Vec<_>>(),
+                "connection": key, "alone": expected.get(&key), "in_pool": got.get(&key),
+                "trace_order": trace.iter().map(|t| t.conn).collect::<Vec<_>>(),
+            })
+        });
+        ctx.bucket(&format!("pool/{kind:?}/w{}/b{}/{mix:?}/{}", cfg.workers, cfg.batch, if via_analyzer { "analyzer-built" } else { "direct" }));
+        ctx.class_n(&format!("pool-stage-results/{kind:?}"), par.results.len() as u64);
+    }
+}
+
+/// Address/port reuse: connection B is opened on the 4-tuple that connection A used, after A has
+/// completed (HTTP: both heads reported; TLS: ClientHello reported).  B is a different connection
+/// (other initial sequence numbers, other content); what the analyzer reports for it must be what
+/// it reports for B alone -- a finished connection must not keep its successor from being analysed.
+fn reuse_stage(ctx: &mut Ctx, s: u64, r: &mut Rng) {
+    for which in [Which::Http, Which::Tls] {
+        let kinds: &[Kind] = if which == Which::Http { &[Kind::Http1, Kind::Http2] } else { &[Kind::Tls] };
+        let ka = *r.pick(kinds);
+        let kb = *r.pick(kinds);
+        let v6 = r.chance(1, 4);
+        let ep = scenario::ep_for(r, s * 16 + 9, v6);
+        let a = scenario::gen_conn_ep(r, s * 16 + 9, ka, scenario::T0, Some(ep.clone()));
+        let b = scenario::gen_conn_ep(r, s * 16 + 10, kb, scenario::T0 + 3000, Some(ep));
+        let (Ok(alone_a), Ok(alone_b)) = (isolated(which, false, &a), isolated(which, false, &b)) else { continue };
+        // A must have completed on its own: request and response (HTTP) / ClientHello (TLS) reported
+        let lines_a: Vec<&String> = alone_a.iter().flatten().collect();
+        let complete = if which == Which::Http {
+            lines_a.iter().any(|l| l.starts_with("httpreq")) && lines_a.iter().any(|l| l.starts_with("httpres"))
+        } else {
+            !lines_a.is_empty()
+        };
+        if !complete {
+            ctx.class("reuse-stage: first connection does not complete (skipped)");
+            continue;
+        }
+        let mut runner = Runner::new(which, 64, false);
+        let mut got_b = Vec::new();
+        let mut panic = None;
+        for (t, f) in &a.frames {
+            if let Err(p) = runner.feed(*t, f) {
+                panic = Some(p);
+            }
+        }
+        for (t, f) in &b.frames {
+            match runner.feed(*t, f) {
+                Ok(l) => got_b.push(l),
+                Err(p) => panic = Some(p),
+            }
+        }
+        if let Some(p) = panic {
+            ctx.judge(false, &[], "panic while analysing interleaved connections", || json!({"panic": p, "scenario": s, "stage": "4-tuple reuse"}));
+            continue;
+        }
+        // which direction completed A: the request last, or the response last
+        let last_report = alone_a.iter().rposition(|l| !l.is_empty()).and_then(|i| alone_a[i].last().map(|l| l.split(' ').next().unwrap_or("").to_string())).unwrap_or_default();
+        ctx.judge(got_b == alone_b, &[], "a connection that reuses the address/port pair of a completed connection is analysed differently than alone", || {
+            let k = alone_b.iter().zip(got_b.iter()).position(|(x, y)| x != y).unwrap_or(0);
+            json!({
+                "scenario": s, "analyzer": format!("{which:?}"), "first_connection": format!("{ka:?}"), "second_connection": format!("{kb:?}"), "endpoints": b.ep.key(),
+                "first_connection_completed_by": last_report,
+                "first_differing_frame_of_second": k, "alone": alone_b.get(k), "after_first": got_b.get(k),
+                "first_frames_hex": a.frames.iter().map(|f| hex(&f.1)).collect::<Vec<_>>(),
+                "second_frames_hex": b.frames.iter().map(|f| hex(&f.1)).collect::<Vec<_>>(),
+            })
+        });
+        ctx.bucket(&format!("reuse/{which:?}/{ka:?}->{kb:?}/completed-by-{last_report}"));
+    }
+}
+
 pub fn run(ctx: &mut Ctx) {
+    crate::pool::install_hooks();
     let n = ctx.scale(24_000, 800_000, 2);
     for s in 0..n {
         if !ctx.mine(s) {
@@ -133,6 +270,15 @@ pub fn run(ctx: &mut Ctx) {
                         "example_result": iso.iter().flatten().flatten().next()}));
                 }
             }
+        }
+        if s % 2 == 0 || !ctx.quick() {
+            reuse_stage(ctx, s, &mut r);
+        }
+        // worker pools: a quarter of the scenarios (quick) / half of them (thorough), spread evenly over the shards;
+        // not under the interpreter, and not once the shard has stored its violations (a pool that
+        // loses frames costs 2 s of idle detection per run)
+        if !ctx.miri() && (s / 16) % if ctx.quick() { 4 } else { 2 } == 0 && ctx.rep.violation_count <= 12 {
+            pool_stage(ctx, s, &mut r, &conns, with_db);
         }
     }
     huginn_net_tcp::verif_hooks::clock::clear();
